@@ -34,6 +34,9 @@ func c10Ops() []string {
 	// `_` is another spelling of message: renaming a key onto itself under the two spellings
 	// values without a string form (an attribute expression yields nothing)
 	ops = append(ops, "set_tag(f1, a.b)", "set_tag(k1, a.b)", "add_key(k1, a.b)", "set_tag(t1, a.b)")
+	// values without a JSON text (a list that contains itself, a list holding +Inf): stored as nil, over an
+	// existing field, an existing tag and a fresh key
+	ops = append(ops, "add_key(f1, cy)", "add_key(k1, cy)", "set_tag(t1, cy)", "add_key(f1, inf)", "set_tag(f1, inf)", "add_key(t1, inf)")
 	ops = append(ops, "rename(message, _)", "rename(_, message)", "rename(_, f1)", "rename(t1, _)", "drop_key(_)", "add_key(_, 2)", "set_tag(_)")
 	return ops
 }
@@ -42,13 +45,13 @@ const c10Obs = "p(get_key(f1), get_key(t1), get_key(message), get_key(k1), get_k
 
 func c10Point() pointSpec {
 	return pointSpec{Meas: "m", Time: 1600000000000000000,
-		Fields: []fieldSpec{{"f1", "int", "5"}, {"message", "str", "hello"}},
+		Fields: []fieldSpec{{"f1", "int", "5"}, {"message", "str", "hello"}, {"u1", "go-uint64", "18446744073709551615"}, {"g1", "go-float32", "0.1"}, {"i1", "go-int32", "-7"}},
 		Tags:   [][2]string{{"t1", "tv0"}}}
 }
 
 func emitC10(e *emitter, ops []string, gen string) {
 	var sb strings.Builder
-	sb.WriteString("v = 7\nk2 = \"var\"\n") // a variable named like a key: add_key(k2)/set_tag(k2) read it first
+	sb.WriteString("v = 7\nk2 = \"var\"\ncy = [1]\ncy[0] = cy\ninf = [1e308 * 10.0]\n") // a variable named like a key: add_key(k2)/set_tag(k2) read it first
 	for _, o := range ops {
 		sb.WriteString(o + "\n" + c10Obs)
 	}
@@ -135,6 +138,11 @@ func genC11(e *emitter, tier string, seed int64) {
 		{"field-hugefloat", "", fieldOf("float", "9097811302482466869")},
 		{"field-bool", "", fieldOf("bool", "false")},
 		{"field-go-bytes", "", fieldOf("bytes", " raw%20Bytes ")},
+		{"field-go-int32", "", fieldOf("go-int32", "-2147483648")},
+		{"field-go-int", "", fieldOf("go-int", "9007199254740993")},
+		{"field-go-uint8", "", fieldOf("go-uint8", "255")},
+		{"field-go-uint64", "", fieldOf("go-uint64", "18446744073709551615")},
+		{"field-go-float32", "", fieldOf("go-float32", "0.1")},
 		{"field-nil", "", fieldOf("nil", "")},
 		{"tag", "", func(p *pointSpec) { p.Tags = append(p.Tags, [2]string{"k", " Tag%20Val "}) }},
 		{"var-over-field", "k = \"from-var\"\n", fieldOf("str", "from-field")},
@@ -155,6 +163,12 @@ func genC11(e *emitter, tier string, seed int64) {
 		"uppercase(k)", `uppercase("k")`,
 		`replace(k, "[a-c]+", "X")`, `replace(k, "(", "X")`, `replace(k, "l+", "$0$0")`, `replace(k, "ell", "[$0]")`, `replace(k, "a", "$$")`, `replace(k, "abc", "$1x")`, `replace(k, "0", "${0}0")`, `replace(k, "", "-")`,
 		"url_decode(k)", `url_decode("k")`,
+		// a value reached twice is not a value that contains itself; one that does is an error of strfmt/printf
+		"sh = [k, k]\nstrfmt(out, \"%v\", sh)", "sh = {\"a\": [k], \"b\": [k]}\nprintf(\"%v\\n\", sh)", "sh = [[1], 2]\nsh2 = [sh, sh, sh[0]]\nstrfmt(out, \"%v|%v\", sh2, sh2)",
+		"cy = [k]\ncy[0] = cy\nstrfmt(out, \"%v\", cy)", "cy = {\"k\": k}\ncy[\"k\"] = cy\nprintf(\"%v\", cy)",
+		// the subject is looked up through every enclosing scope, also from inside blocks
+		"if true {\n  trim(k)\n}", "for i = 0; i < 1; i = i + 1 {\n  uppercase(k)\n}", "if true {\n  if true {\n    replace(k, \"[a-c]+\", \"X\")\n  }\n}", "for x in [1] {\n  url_decode(k)\n  set_tag(k)\n}",
+		"if true {\n  add_key(k)\n  cast(k, \"str\")\n}", "if true {\n  k = \" inner%20 \"\n  trim(k)\n  url_decode(k)\n}",
 		// `_` stands for message
 		"add_key(_, 1)", "p(get_key(_))", "drop_key(_)", "rename(newk, _)", "rename(message, _)", "rename(_, message)", `rename("message", _)`, "rename(_, _)", "rename(_, k)", "rename(k, _)", "uppercase(_)", "trim(_)", "set_tag(_)", `cast(_, "int")`, "add_key(nk, _)",
 	}
